@@ -261,6 +261,8 @@ def declarations():
     d('top:-1.5px', 'top', ['-1.5', Word('px', simple=False)], (_num('-1.5', 'px'),))
     d('width:50%', 'width', ['50%'], (_num('50', '%'),))
     d('z-index:1', 'z-index', ['1'], (_num('1'),))
+    # an integer no double can hold (2**53 + 1): the DOM holds the digits that were written
+    d('z-index:9007199254740993', 'z-index', ['9007199254740993'], (_num('9007199254740993'),))
     d('content:"s"', 'content', [Str('s')], (('string', 's'),))
     d('background:url(u)', 'background', [Word('url', simple=True), '(', Gap('O', comment=False), 'u', Gap('O', comment=False), ')'], (('url', 'u'),))
     d('color:#f00', 'color', ['#f00'], (('color', 255, 0, 0, 1.0),))
